@@ -186,7 +186,8 @@ func (db *DB) Exec(stmt *Statement, params map[string]any) (res gmodel.Result, o
 			case *unsupportedError:
 				res, out = gmodel.Result{}, &Outcome{Unsupported: t.Reason}
 			default:
-				panic(r)
+				// a bug in pgsim must never become a verdict
+				res, out = gmodel.Result{}, &Outcome{Unsupported: fmt.Sprintf("internal error: %v", r)}
 			}
 		}
 	}()
